@@ -15,7 +15,7 @@ def life(text, ref):
 
 CHECKS = {
     "C01": dict(cat="exploration", engine="R", note="Trusted: Tendermint (replaced by a driver feeding identical ABCI streams), the Go toolchain's -overlay mechanism for the clock and map-iteration seams; maps with more than 8 entries get a subset of the runtime's iteration freedom; concurrency between consensus and non-consensus calls is not explored (calls are inserted between consensus calls).",
-                text="Two real application instances are fed the same ABCI block stream; replica B differs by exactly one enumerated environment deviation (wall-clock offset, map-iteration word, Simulate/CheckTx/Query inserted at every stream position for every transaction of the script). Every consensus response and app hash must be byte-identical. Exhaustive over the enumerated single deviations of three scripts that cover every custom message type, the staking hooks and tie-breaking selections.",
+                text="Two real application instances are fed the same ABCI block stream; replica B differs by exactly one enumerated environment deviation (wall-clock offset, map-iteration word, Simulate/CheckTx inserted at every stream position, the whole gRPC query menu of the six custom modules at every stream position, restart from the database at every stream position; seven scripts incl. a did:sid owner with key rotation, a governance parameter change and a super-node round with a store failing after selection). Every consensus response and app hash must be byte-identical. Exhaustive over the enumerated single deviations of three scripts that cover every custom message type, the staking hooks and tie-breaking selections.",
                 tech="deviation-bounded exhaustive exploration of environment choices (clock, map order, interleaved non-consensus calls) on the real ABCI boundary, differential oracle between replicas", ref="5/C01, 3.3"),
     "C02": dict(cat="model_checking", engine="X+E", text="Every block advance of the lifecycle, capacity, fault-sequence and reward-minting explorations runs the real end-blockers and begin-blocker without recovery: a panic (chain halt) or a transition exceeding the CPU watchdog is a violation; transaction panics must surface as rejected transactions (compared with real DeliverTx in the conformance leg); the selection functions are enumerated exhaustively over small input domains under a CPU guard.", tech="explicit-state model checking of the implementation with halt/non-termination oracle + exhaustive input enumeration of the selection functions under a CPU-time watchdog", ref="5/C02"),
     "C03": dict(cat="fault_enumeration", engine="R", note="Trusted: Tendermint driver as in C01; a restart is a new app.New over the same database inside the harness process, so it resets everything an application instance holds but not Go package-level variables (none remain in x/ and app/ after the D2 repair; their residue is covered by the Simulate insertions, which stay in-process like a real node).",
@@ -29,7 +29,7 @@ CHECKS = {
     "C09": life("Exhaustive search of a small lifecycle in which every state offers every unauthorised request (request type x signer role x relayer x crafted commit id / owner-field mismatch / replayed signature / sid kid variants); an accepted unauthorised request must leave model, alias, orders, shards and expiry entry byte-identical; authorised twins must succeed (non-vacuity).", "5/C09, A.5"),
     "C10": life("Exhaustive search of a small lifecycle with an adversary node whose declared TxAddresses range over subsets of {order creator, provider, itself}; every message type with a creator/provider pair is sent by the adversary claiming each relevant provider, plus third-party / sponsor-misuse store submissions; every accepted adversarial message must leave all other parties' records and balances byte-identical.", "5/C10, A.5"),
     "C11": life("Exhaustive search over the lifecycle alphabet plus fault-sequence scenarios with a ghost paid-until height per completed shard: not released early, released at the end-block of its term, model alive while a paid shard remains and gone with the last one.", "5/C11, A.3"),
-    "C12": life("Exhaustive enumeration of provider silence patterns per timeout interval (all complete/silent choices, optional late joiner, update orders, migrations) up to the give-up bound, plus the lifecycle alphabet: no unresolved order without a timeout entry, resolution within the bound, no change to a fully stored order by the timeout mechanism.", "5/C12, A.4"),
+    "C12": life("Exhaustive enumeration of provider silence patterns per timeout interval (all complete/silent choices, optional late joiner, update orders, migrations) up to the give-up bound, plus the lifecycle alphabet (incl. orders picked up later by MsgReady): no unresolved order without a timeout entry, resolution within the bound counted from the hand-over, exact replica count / amount / refund at a partial give-up, no change to a fully stored order by the timeout mechanism.", "5/C12, A.4"),
     "C13": life("Exhaustive explicit-state search of the real handlers and end-blockers over the lifecycle alphabet; the four referential-integrity relations are evaluated in every reachable state and a violation is attributed to the step that first broke it. Bounded (depth, menus) but complete within the bound.", "5/C13"),
     "C14": life("Exhaustive explicit-state search of the real handlers and end-blockers over the lifecycle alphabet; per-provider counters and pool totals are recomputed from the shard and pledge records in every reachable state.", "5/C14"),
     "C15": dict(cat="exploration", engine="E+X", text="Exhaustive enumeration of RandomIndex and RandomSP (incl. GetNextSuperNodes, SelectNodes) inputs over small attribute domains (all populations up to 4/5 nodes over 11 classes, all ignore lists up to size 2, counts, cursors, 10 seeds) with the placement oracle on every result, plus the same oracle on every assignment made during the lifecycle and fault-sequence explorations of the real handlers.", tech="exhaustive input enumeration (engine E) + explicit-state exploration of the implementation (engine X)", ref="5/C15"),
